@@ -12,16 +12,16 @@ def jobs(tier):
                      stubs='stubs_number', nproc=nproc, bound=bound, timeout=3400, max_paths=3000000))
     N = 5 if q else 6
     for n in range(1, N + 1):
-        add('free%d' % n, [-1, 0, n], 'every valid JSON text of length %d x all 12 paths' % n, nproc=2 if n < 5 else 16)
+        add('free%d' % n, [-1, 0, n], 'every valid JSON text of length %d x all 14 paths' % n, nproc=2 if n < 5 else 16)
     for arr in (0, 1):
         for esc in ((0, 1) if not arr else (0,)):
-            add('tmpl.a%d.e%d' % (arr, esc), [-1, 2, arr, esc], ('[V,W,X]' if arr else '{"a":V,"b":W,"a":X}' + (' with key a spelled \\u0061' if esc else '')) + ' with 2-byte symbolic values x all 12 paths', nproc=8)
+            add('tmpl.a%d.e%d' % (arr, esc), [-1, 2, arr, esc], ('[V,W,X]' if arr else '{"a":V,"b":W,"a":X}' + (' with key a spelled \\u0061' if esc else '')) + ' with 2-byte symbolic values x all 14 paths', nproc=8)
     fills = [31, 32, 33, 63, 64, 65] if q else list(range(28, 37)) + list(range(60, 69))
     for sk in range(5):
         for kind in (0, 1):
             for f in fills:
                 add('fill.s%d.k%d.f%d' % (sk, kind, f), [-1, 1, sk, f, kind, 3 if q else 4],
-                    'skeleton %d + %d filler bytes (%s) + %d symbolic bytes completing a valid text x all 12 paths' % (sk, f, 'spaces' if kind == 0 else 'string content with brackets', 3 if q else 4), nproc=2)
+                    'skeleton %d + %d filler bytes (%s) + %d symbolic bytes completing a valid text x all 14 paths' % (sk, f, 'spaces' if kind == 0 else 'string content with brackets', 3 if q else 4), nproc=2)
     return J
 
 
